@@ -16,6 +16,7 @@ REQUIRED = [
     "DaeVerif.C01.Props.non_matching_rule_skipped",
     "DaeVerif.C01.Props.first_final_decides",
     "DaeVerif.C01.Props.route_ipversion",
+    "DaeVerif.Compose.match_with_real_domain_matcher",
 ]
 
 
@@ -23,10 +24,12 @@ def run(ctx):
     ctx.trusted += [
         "Common/RuleScan.scan_lower (proved in the same build) — the generic OR/AND/NOT scan = first match",
         "C12 theorems (trie query = CIDR containment) are used for ip/mac conditions; pkg/trie internals are C11's subject",
+        "composition (Compose.match_with_real_domain_matcher): with C11's proved model of the real domain matcher built from the builder's AddSet calls the oracle disappears for full/suffix/keyword patterns (regex stays an oracle); the driver executes that composed path (packed tries of the C11 model) on every packet that carries a name and flags any difference; "
         "domain key-group truth is an oracle per packet (computed by the harness with a reference matcher for full/suffix/keyword/regex on lower-case names; the bit's meaning is property C11); the real Match uses the real AhocorasickSlimtrie",
         "the generator's typed program is the meaning of the text it renders (rendering code in harness/overlay/control/c01_test.go)",
     ]
-    ctx.prove(["DaeVerif.C01.Props"], ["DaeVerif.C01.Props"], ["DaeVerif/C01/*.lean", "DaeVerif/Common/RuleScan.lean"],
+    ctx.prove(["DaeVerif.C01.Props", "DaeVerif.Compose.Routing"], ["DaeVerif.C01.Props", "DaeVerif.Compose"],
+              ["DaeVerif/C01/*.lean", "DaeVerif/Compose/*.lean", "DaeVerif/Common/RuleScan.lean"],
               extra_targets=["c01drv"])
     ctx.required_theorems(REQUIRED)
 
@@ -54,7 +57,7 @@ def run(ctx):
                    {"stream": "c01", "line": ln, "program": prog_of.get(ln), "op": op, "impl": im, "model": mo,
                     "replay": "VERIF_SEED=%d ./check C01 %s" % (ctx.seed, ctx.tier)})
     for i, mo in enumerate(model_l):
-        if "SPEC-DIFFERS" in mo or mo == "bad-op":
+        if "SPEC-DIFFERS" in mo or "REAL-MATCHER-DIFFERS" in mo or "bad-name" in mo or mo == "bad-op":
             ctx.report("model driver: scan and specification differ / bad op (harness-model protocol bug)", {"line": i + 1, "op": ops_l[i], "model": mo})
             break
     # generator quality: which rule decided (diagnostic second pass of the model driver)
